@@ -75,6 +75,7 @@ class Prop(BaseProp):
                 add(SCALAR[kind][1], [a], [qb])
                 add(SCALAR[kind][0], [a, lifted])
                 add('from_F', [], [qb])
+                add('from_inner_F', [], [qb])
                 self.groups.append(('scalar', ids, kind))
             elif kind == 'mul_add':
                 a, b, c = val(), val(), val()
@@ -105,8 +106,10 @@ class Prop(BaseProp):
                         self.violations.append(Violation('counterexample', 'form %s differs from %s on %s (same operands)' % (C[i].op, C[ids[0]].op, C[i].ty),
                                                          case=C[i], expected=ref, obtained=impl[i]))
             elif kind == 'scalar':
-                a, b, c, f = (impl[i] for i in ids)
+                a, b, c, f, fin = (impl[i] for i in ids)
                 ty = C[ids[0]].ty
+                if fin != f:
+                    self.violations.append(Violation('counterexample', 'DualNum::from_inner of the lifted scalar differs from From<F> on %s' % ty, case=C[ids[4]], expected=f, obtained=fin))
                 if a != b:
                     self.violations.append(Violation('counterexample', '%s and its compound-assignment form differ on %s' % (info, ty), case=C[ids[1]], expected=a, obtained=b))
                 if 'panic' in (a, c, f):
@@ -149,4 +152,4 @@ class Prop(BaseProp):
     def rule_text(self):
         return ('groups of cases on identical operands: the five forms of each binary operator (and neg, inv/recip, sum/product by value and by reference) must be '
                 'bit-identical; scalar forms against their compound form (bit-identical) and against the operation with the lifted constant (numerically equal, '
-                '4 ulps for division); zero/one/empty sum/empty product/from_i32/From<F> have zero derivative parts; mul_add against the model of x*a+b')
+                '4 ulps for division); zero/one/empty sum/empty product/from_i32/From<F>/from_inner have zero derivative parts; mul_add against the model of x*a+b')
